@@ -19,7 +19,9 @@ SPECS = [
  ("src/commit.rs", "slot.store(std::ptr::null_mut(), Ordering::Release);", 1, "a", '"deq.cleared", tail as u64, 0'),
  ("src/commit.rs", "// CAS failed, retry the whole loop", 1, "a", '"deq.cas_fail", tail as u64, 0'),
  # ---- commit()
- ("src/commit.rs", "pub(crate) async fn commit(&self, mut batch: Batch, sync: bool, start_seq: u64) -> Result<()> {", 1, "a", '"commit.enter", start_seq, batch.count() as u64', 1),
+ # (since the repair of C04-N1 the body is `async fn commit_checked(&self, mut batch: Batch, sync, start_seq, begin_epoch: Option<u64>)`,
+ #  a signature over several lines: the anchor is its last parameter line, the hook goes after the line below it)
+ ("src/commit.rs", "begin_epoch: Option<u64>, @+1 || pub(crate) async fn commit(&self, mut batch: Batch, sync: bool, start_seq: u64) -> Result<()> {", 1, "a", '"commit.enter", start_seq, batch.count() as u64', 1),
  ("src/commit.rs", "self.write_stall.check().await?;", 1, "a", '"commit.stall_ok", 0, 0'),
  ("src/commit.rs", "let _permit = self.commit_sem.acquire().await.map_err(|_| Error::PipelineStall)?;", 1, "a", '"commit.sem_acquired", 0, 0'),
  ("src/commit.rs", "let (commit_batch, complete_rx) = CommitBatch::new(batch.count());", 1, "a", '"commit.want_lock", 0, batch.count() as u64'),
